@@ -927,7 +927,10 @@ engine_gen(struct plan * P, uint64_t seed, struct prng * g)
 		default: mrl = bodylen + prng_n(g, 100000); break;
 		}
 	}
-	plan_add(P, "knob", "maxrlen", 1, (int64_t)mrl);
+	if (prng_chance(g, 3))
+		plan_add(P, "knob", "maxrlen", 1, (int64_t)-1 - (int64_t)prng_n(g, 2));	/* SIZE_MAX, SIZE_MAX - 1 */
+	else
+		plan_add(P, "knob", "maxrlen", 1, (int64_t)mrl);
 	plan_add(P, "knob", "place", 1, (int64_t)(prng_chance(g, 35) ? 1 + prng_n(g, 8) : 0));	/* boundary placement: target ends at 4096*k - (place-1) */
 	if (host) {
 		int nm = 1 + (int)prng_n(g, 3), k;
